@@ -25,7 +25,7 @@ func VerifC04_FetchFallback() {
 	otherStatus := []int{http.StatusBadRequest, http.StatusNotFound, http.StatusForbidden}[verif_Choose("statusOutsideMount", 0, 2)]
 	exists := map[string]bool{"head": true, "blk": true}
 	// one request (-1: none) is answered with a transient fault status instead
-	faultAt := verif_Choose("faultAtRequest", 0, 3) - 1
+	faultAt := verif_Choose("faultAtRequest", 0, 3+2*verif_Tier()) - 1
 	faultStatus := []int{http.StatusForbidden, http.StatusNotFound, http.StatusInternalServerError}[verif_Choose("faultStatus", 0, 2)]
 	reqNo, faulted := 0, false
 	rt := &vRT{fn: func(req *http.Request) (*http.Response, error) {
@@ -55,7 +55,7 @@ func VerifC04_FetchFallback() {
 		return vResp(http.StatusNotFound, nil), nil
 	}}
 	s := &Syncer{client: &http.Client{Transport: rt}, rootURL: vURL("http://pub.example/ipni/v1/ad"), plainHTTP: plain, sync: &Sync{}}
-	n := verif_Choose("fetches", 1, 3)
+	n := verif_Choose("fetches", 1, 3+verif_Tier())
 	for i := 0; i < n; i++ {
 		r := []string{"head", "blk", "missing"}[verif_Choose("resource", 0, 2)]
 		got := false
